@@ -16,6 +16,16 @@ for d in sorted(glob.glob("/verif/seeded/C*")):
     if "differs-from-published-fit" in how or "event-not-allowed" in how:
         mech = "model = specification: disagreement reported with the failing input"
     status = "caught (quick, %.0f s)" % q.get("wall_s", 0) if q.get("caught") else ("caught (thorough)" if res.get("thorough", {}).get("caught") else "MISSED")
+    # cross-property detection: another property's check run against this seed (seed_run.py --check)
+    cross = []
+    for f in sorted(glob.glob(d + "/result_quick_C*.json")):
+        r = json.load(open(f))
+        if r.get("caught"):
+            cross.append("%s (%s)" % (r["check"], (r.get("how") or [""])[0].replace("violation: ", "").split(" — ")[0][:50]))
+    if cross:
+        status += "; also caught by " + ", ".join(cross)
+        if status.startswith("MISSED"):
+            status = status.replace("MISSED", "not by its own check")
     rows.append((n, m.get("property", n[:3]), ", ".join(m.get("files_changed", []))[:70], (m.get("breaks") or "")[:160].replace("|", "/"),
                  (m.get("needs_to_manifest") or "")[:160].replace("|", "/"), status, how.split(" — ")[0][:70], mech))
 with open("/verif/seeded/README.md", "w") as f:
